@@ -48,6 +48,9 @@ LEVEL_NOTE = (
 )
 
 TOMOS = ("qst", "povmt", "qpt", "qmpt")
+# debugging switch for the mutant experiments in notes/c08.md (never set by run_check.sh): skip the reference-matrix
+# oracles so that a mutant has to be caught by the literal statement "model == circuit on an affine basis"
+_ONLY_CIRCUIT = bool(__import__("os").environ.get("C08_ONLY_CIRCUIT"))
 P_INTERIOR = 1e-3  # reference probabilities at the interior point must be at least this for circuit comparisons
 
 
@@ -379,6 +382,8 @@ def compare_matrices(case, c, tomo, ctx):
     A = tomo.calc_matA()
     B = tomo.calc_vecB()
     tol = tol_for(c)
+    if _ONLY_CIRCUIT:  # sensitivity experiments only: leave the decision to the model-vs-circuit oracles
+        return np.asarray(A, dtype=float), np.asarray(B, dtype=float)
     ok = ctx.close(A, c.A_ref, tol, f"matA_vs_born:{c.tomo}")
     ok = ctx.close(B, c.B_ref, tol, f"vecB_vs_born:{c.tomo}") and ok
     return (np.asarray(A, dtype=float), np.asarray(B, dtype=float)) if ok else None
@@ -553,7 +558,7 @@ def check_shape(case, ctx):
     ctx.equal(int(np.size(empty.to_var())), int(c.nvar), f"len_to_var:{c.tomo}", "empty estimation object")
     obj = tomo.convert_var_to_qoperation(np.array(c.v0, dtype=np.float64))
     ctx.equal(int(np.size(obj.to_var())), int(c.nvar), f"len_to_var:{c.tomo}", "converted candidate")
-    ctx.close(np.asarray(obj.to_var(), dtype=float), c.v0, 0.0, f"var_roundtrip:{c.tomo}")
+    ctx.close(np.asarray(obj.to_var(), dtype=float), c.v0, tol_for(c), f"var_roundtrip:{c.tomo}")
     AB = compare_matrices(case, c, tomo, ctx)
     if AB is None:
         return
